@@ -20,7 +20,7 @@ ASSUMPTIONS = ['offset of frame k is the double (t_start_k - t_start_0), as the 
                'array path / time profile only when all members have equal tchans',
                'tolerance as in C01']
 REQUIRED_CLASSES = ['frames>=2', 'fault', 'select=slice', 'select=label', 'select=index', 'smear', 'int_path', 'int_t',
-                    'overwrite', 'unix_scale', 'repeat']
+                    'overwrite', 'unix_scale', 'repeat', 'mixed_history', 'members_consolidated', 'fault_not_exception_subclass']
 
 
 @st.composite
@@ -42,7 +42,8 @@ def strategy_(draw, tier):
                 sel_a=draw(st.integers(0, 5)), sel_b=draw(st.integers(1, 6)),
                 order=draw(st.sampled_from(['ABACAD', 'ABABAB', 'AAABBB'])),
                 repeat=draw(st.integers(1, 3)),
-                fault=draw(st.sampled_from([None, None, 'path', 't', 'f'])))
+                fault=draw(st.sampled_from([None, None, 'path', 't', 'f'])), fault_exc=draw(st.sampled_from(['Exception', 'Exception', 'BaseException', 'KeyboardInterrupt'])),
+                consolidated=draw(st.sampled_from([False, False, False, True])), mixed=draw(st.booleans()))
 
 
 def strategy(tier):
@@ -53,20 +54,24 @@ class Boom(RuntimeError):
     pass
 
 
-def make_faulty(fn, k, nargs):
+class BoomBase(BaseException):
+    """Not derived from Exception (like KeyboardInterrupt raised while a callback runs)."""
+
+
+def make_faulty(fn, k, nargs, exc=Boom):
     """Wrap callable fn so that its k-th call raises."""
     state = {'n': 0}
     if nargs == 1:
         def w(x):
             state['n'] += 1
             if state['n'] == k:
-                raise Boom(f'call {k}')
+                raise exc(f'call {k}')
             return fn(x)
     else:
         def w(x, c):
             state['n'] += 1
             if state['n'] == k:
-                raise Boom(f'call {k}')
+                raise exc(f'call {k}')
             return fn(x, c)
     return w
 
@@ -79,7 +84,15 @@ def build_cadence(stg, case):
         fr = stg.Frame(fchans=g['fchans'], tchans=fd['tchans'], df=g['df'], dt=g['dt'], fch1=g['fch1'],
                        ascending=g['ascending'], t_start=t + fd['gap'], source_name=f'F{k}')
         frames.append(fr)
-        t = fr.t_stop
+        t = fr.t_start + fd['tchans'] * g['dt']
+    if case.get('consolidated') and len(frames) >= 2:
+        # members that are themselves consolidated cadences: their time axis is absolute and may have gaps
+        out = []
+        for i in range(0, len(frames) - 1, 2):
+            out.append(stg.Cadence(frames[i:i + 2]).consolidate())
+        if len(frames) % 2:
+            out.append(frames[-1])
+        return out
     return frames
 
 
@@ -89,6 +102,13 @@ def run_case(case, ctx):
     g, sg, opts = case['g'], case['sig'], case['opts']
     frames = build_cadence(stg, case)
     nfr = len(frames)
+    if case.get('consolidated') and len(case['frames']) >= 2:
+        obs.cls('members_consolidated')
+        # consolidated members have twice the rows and a gapped absolute time axis: arrays sized for the original
+        # frames do not apply, and the sub-sample integration grid is only defined for a contiguous axis
+        if sg['path']['kind'] == 'array' or sg['t']['kind'] == 'array':
+            return obs
+        opts = dict(opts, integrate_path=False, integrate_t_profile=False)
     ow = case['overwrite']
     if ow is not None:
         ok, cad = core.call(obs, 'construct', stg.OrderedCadence, frame_list=frames, order=case['order'],
@@ -181,17 +201,20 @@ def run_case(case, ctx):
                     tprof = S.stg_t(stg, ax0, sg['t'])
                     fprof = S.stg_f(stg, ax0, sg['f'])
                     bp = S.stg_bp(stg, ax0, sg['bp'])
+                    exc_t = {'Exception': Boom, 'BaseException': BoomBase, 'KeyboardInterrupt': KeyboardInterrupt}[case.get('fault_exc', 'Exception')]
+                    if exc_t is not Boom:
+                        obs.cls('fault_not_exception_subclass')
                     if fault == 'path':
-                        path = make_faulty(path, k, 1)
+                        path = make_faulty(path, k, 1, exc_t)
                     elif fault == 't':
-                        tprof = make_faulty(tprof, k, 1)
+                        tprof = make_faulty(tprof, k, 1, exc_t)
                     else:
-                        fprof = make_faulty(fprof, k, 2)
+                        fprof = make_faulty(fprof, k, 2, exc_t)
                     data_before = [f.data.copy() for f in members]
                     try:
                         target.add_signal(path, tprof, fprof, bp, **kw)
                         obs.fail('fault_swallowed', f'k={k}')
-                    except Boom:
+                    except (Boom, BoomBase, KeyboardInterrupt):
                         pass
                     except BaseException as exc:
                         who, where = core.classify_exception(exc)
@@ -228,7 +251,7 @@ def run_case(case, ctx):
         for k, f in enumerate(members):
             ax = S.Axes(f.fs, f.ts, f.df, f.dt)
             off = f.t_start - t_first
-            exp, tol, excl = S.reference(stg, ax, sg, opts, ts_eval=ts_before[k] + off, cache=cache)
+            exp, tol, excl = S.reference(stg, ax, sg, opts, ts_eval=ts_before[k] + off, cache=cache, ax_fn=ax0)
             delta = f.data - data_before[k]
             bad = (np.abs(delta - exp) > tol + 1e-12 * np.max(np.abs(f.data))) & ~excl
             if np.any(bad):
@@ -245,6 +268,43 @@ def run_case(case, ctx):
             visible = any(np.any(np.abs(f.data) > 1e-12 * amp) for f in members)
             obs.nontrivial = m >= 2 and members[-1].t_start != t_first and varying and visible
 
+    # ---- mixed histories: the same frames injected directly, then through another cadence ----------
+    if case.get('mixed') and not obs.violations:
+        obs.cls('mixed_history')
+        phases = [('direct', [members[-1]], None)]
+        if m >= 3:
+            phases.append(('subcadence', members[1:], stg.Cadence(members[1:])))
+        phases.append(('whole_again', members, target))
+        for pname, mem, tgt in phases:
+            path = S.stg_path(stg, ax0, sg['path'], smear)
+            tprof = S.stg_t(stg, ax0, sg['t'])
+            fprof = S.stg_f(stg, ax0, sg['f'])
+            bp = S.stg_bp(stg, ax0, sg['bp'])
+            data_before = [f.data.copy() for f in mem]
+            tsb = [np.array(f.ts, copy=True) for f in mem]
+            if tgt is None:
+                ok, _ = core.call(obs, 'frame.add_signal[after cadence]', mem[0].add_signal, path, tprof, fprof, bp, **kw)
+            else:
+                ok, _ = core.call(obs, f'cadence.add_signal[{pname}]', tgt.add_signal, path, tprof, fprof, bp, **kw)
+            if not ok:
+                break
+            cache = {}
+            t_first = mem[0].t_start
+            for k2, f in enumerate(mem):
+                ax = S.Axes(f.fs, f.ts, f.df, f.dt)
+                off = 0.0 if tgt is None else f.t_start - t_first
+                exp, tol, excl = S.reference(stg, ax, sg, opts, ts_eval=tsb[k2] + off, cache=cache, ax_fn=ax0)
+                delta = f.data - data_before[k2]
+                bad = (np.abs(delta - exp) > tol + 1e-12 * np.max(np.abs(f.data))) & ~excl
+                if np.any(bad):
+                    i, j = map(int, np.argwhere(bad)[0])
+                    obs.fail(f'value:mixed_history:{pname}:{"+".join(flags) or "plain"}',
+                             f'{pname} injection after earlier cadence injections: frame {k2} pixel ({i},{j}) got {delta[i, j]!r} expected {exp[i, j]!r}')
+                    break
+                if not np.array_equal(np.asarray(f.ts), tsb[k2]):
+                    obs.fail(f'ts_not_restored:mixed:{pname}', f'frame {k2}')
+            if obs.violations:
+                break
     # ---- consolidate -----------------------------------------------------------------------
     ok, cf = core.call(obs, 'consolidate', target.consolidate)
     if ok and cf is not None:
